@@ -1434,7 +1434,7 @@ class Interp:
             if exc_isinstance(fv.name, 'BaseException') or fv.name in ('ClientException',):
                 return ExcVal(fv.name, args)
             from .builtins import BUILTINS
-            if fv.name in BUILTINS:
+            if fv.name in BUILTINS and not isinstance(BUILTINS[fv.name], PType):
                 return self.call(BUILTINS[fv.name], args, kwargs)
         if is_z3(fv) and '__call_symbolic__' in self.globals:
             return self.globals['__call_symbolic__'](self, fv, args, kwargs)
